@@ -220,7 +220,8 @@ def gen_sys(rng):
             'box': _gen_box(rng), 'box_unit': rng.choice(UNITS['length'] + [None]),
             'pbc': [rng.random() < 0.6 for _ in range(3)], 'symbols': symbols, 'masses': masses,
             'natoms': natoms, 'props': props,
-            'call': rng.choice(['prop_unit', 'prop_unit', 'lists', 'default'])}
+            'call': rng.choice(['prop_unit', 'prop_unit', 'lists', 'default']),
+            'io': rng.choice(['str', 'str', 'path', 'fileobj'])}
 
 
 def gen_ec(rng):
@@ -356,12 +357,11 @@ class RealRun:
         self.extra = {}
 
 
-def run_real(case) -> RealRun:
+def _run_real(case, r) -> RealRun:
     """write under configuration w1, encode, read under w2.  Leaves w2 active: callers restore."""
     import atomman as am
     import numpy as np
     uc = _uc()
-    r = RealRun()
     k, via = case['kind'], case['via']
     set_cfg(case['w1'])
     r.fW = _factors(case)
@@ -405,7 +405,21 @@ def run_real(case) -> RealRun:
         return r
     r.tree = model
     try:
-        if k == 'sys' and via != 'tree':
+        if k == 'sys' and via != 'tree' and case.get('io', 'str') != 'str':
+            # dump(f=...) : format taken from the file extension (path) or given (file object)
+            import os
+            import tempfile
+            fd, path = tempfile.mkstemp(suffix='.' + via, prefix='c10_')
+            os.close(fd)
+            r.extra['path'] = path
+            if case['io'] == 'path':
+                s.dump('system_model', f=path, box_unit=case['box_unit'], **fmtkw)
+            else:
+                with open(path, 'w', encoding='UTF-8') as fp:
+                    s.dump('system_model', f=fp, format=via, box_unit=case['box_unit'], **fmtkw)
+            with open(path, encoding='UTF-8') as fp:
+                text = fp.read()
+        elif k == 'sys' and via != 'tree':
             text = s.dump('system_model', format=via, box_unit=case['box_unit'], **fmtkw)
         else:
             text = _to_text(model, via, wrap)
@@ -425,12 +439,33 @@ def run_real(case) -> RealRun:
         elif k == 'atoms':
             r.read = am.Atoms(model=text)
         elif k == 'sys':
-            r.read = am.System(model=text) if via == 'tree' else am.load('system_model', text)
+            if via == 'tree':
+                r.read = am.System(model=text)
+            elif case.get('io', 'str') == 'path':
+                r.read = am.load('system_model', r.extra['path'])
+            elif case.get('io', 'str') == 'fileobj':
+                with open(r.extra['path'], 'rb') as fp:      # DataModelDict wants file objects in bytes mode
+                    r.read = am.load('system_model', fp)
+            else:
+                r.read = am.load('system_model', text)
         else:
             r.read = am.ElasticConstants(model=text)
     except Exception as e:  # noqa
         r.read_error = f'{type(e).__name__}: {e}'
     return r
+
+
+def run_real(case) -> RealRun:
+    r = RealRun()
+    try:
+        return _run_real(case, r)
+    finally:
+        if 'path' in r.extra:
+            import os
+            try:
+                os.unlink(r.extra['path'])
+            except OSError:
+                pass
 
 
 # ----------------------------------------------------------------------------------------
